@@ -73,12 +73,13 @@ theorem lru_nodup (kd : Kind) (c : Cfg) (hc : Proved kd c) (cap : Int) (hcap : 0
     ((final (step c kd) (Lru.new cap) ops).list.map (·.key)).Nodup :=
   (lru_state_is_ideal kd c hc cap hcap hcap2 ops hok).1.nodup
 
-theorem specStep_no_panic (kd : Kind) (s : Ideal) (op : Op) : (specStep kd s op).2 ≠ .panic := by
-  cases op <;> simp [specStep] <;> split <;> simp
+theorem specStep_no_panic (kd : Kind) (s : Ideal) (op : Op) (hf : op.faults = false) : (specStep kd s op).2 ≠ .panic := by
+  cases op <;> simp [Op.faults] at hf <;> simp [specStep] <;> split <;> simp
 
-/-- inside the quantifier no call panics (the nil `Back()` is never dereferenced) -/
+/-- inside the quantifier no call panics (the nil `Back()` is never dereferenced) — unless the caller's own
+`Value.Size()` does (`Op.faults`) -/
 theorem lru_no_panic (kd : Kind) (c : Cfg) (hc : Proved kd c) (cap : Int) (hcap : 0 ≤ cap) (hcap2 : cap < 2 ^ 62)
-    (ops : List Op) (hok : ∀ o ∈ ops, o.sizeOk = true) :
+    (ops : List Op) (hok : ∀ o ∈ ops, o.sizeOk = true) (hnf : ∀ o ∈ ops, o.faults = false) :
     Out.panic ∉ outs (step c kd) (Lru.new cap) ops := by
   rw [lru_refines_ideal kd c hc cap hcap hcap2 ops hok]
   clear hok
@@ -87,7 +88,16 @@ theorem lru_no_panic (kd : Kind) (c : Cfg) (hc : Proved kd c) (cap : Int) (hcap 
   | nil => simp
   | cons o ops ih =>
     simp only [outs_cons, List.mem_cons, not_or]
-    exact ⟨fun h => specStep_no_panic kd s o h.symm, ih _⟩
+    exact ⟨fun h => specStep_no_panic kd s o (hnf o (by simp)) h.symm, ih (fun x hx => hnf x (by simp [hx])) _⟩
+
+/-- a `Set` / `SetAndGetRemoved` (any key) or `SetIfAbsent` (absent key) whose value cannot be sized — `Size()` panics,
+or the value is nil — fails and changes NOTHING: list, table, counters are as before (no ghost entry);
+`SetIfAbsent` on a present key never sizes the value and just refreshes the entry -/
+theorem failed_set_changes_nothing (kd : Kind) (c : Cfg) (s : Lru) (k : Nat) :
+    step c kd s (.setF k) = (s, .panic) ∧ step c kd s (.setGetRemovedF k) = (s, .panic) ∧
+      (find? k s.list = none → step c kd s (.setIfAbsentF k) = (s, .panic)) := by
+  refine ⟨rfl, rfl, fun h => ?_⟩
+  simp [step, h]
 
 /-! ### which entries are evicted -/
 
